@@ -283,6 +283,32 @@ func (a *Analyzer) CheckRule(clause ast.Clause) error {
 		return fmt.Errorf("variable %v is not bound in %v", v, clause)
 	}
 
+	// Every variable used by a transform statement needs a value at that point:
+	// from the rule body or from an earlier statement of the transform.
+	definedSoFar := make(map[ast.Variable]bool)
+	for tr := clause.Transform; tr != nil; tr = tr.Next {
+		for _, stmt := range tr.Statements {
+			uses := make(map[ast.Variable]bool)
+			ast.AddVars(stmt.Fn, uses)
+			for v := range uses {
+				hasValue := boundVars[v] || definedSoFar[v]
+				if x := uf.Get(v); !hasValue && x != nil {
+					if _, isconst := x.(ast.Constant); isconst {
+						hasValue = true
+					} else if u, isvar := x.(ast.Variable); isvar && boundVars[u] {
+						hasValue = true
+					}
+				}
+				if !hasValue {
+					return fmt.Errorf("variable %v used in transform %v has no value in clause %v", v, *clause.Transform, clause)
+				}
+			}
+			if stmt.Var != nil {
+				definedSoFar[*stmt.Var] = true
+			}
+		}
+	}
+
 	// Every variable use that we saw in transform has to be bound somewhere.
 	for v := range transformVarUses {
 		// In a transform, we can refer to any variable that appears in the rule.
